@@ -1878,7 +1878,8 @@ func (bc *Blockchain) AddBlock(block *block.Block) error {
 			// Transactions are verified before adding them
 			// into the pool, so there is no point in doing
 			// it again even if we're verifying in-block transactions.
-			if bc.memPool.ContainsKey(tx.Hash()) {
+			// The hash doesn't cover witnesses, so they must be the verified ones.
+			if ptx, ok := bc.memPool.TryGetValue(tx.Hash()); ok && sameWitnesses(ptx.Scripts, tx.Scripts) {
 				err = mp.Add(tx, bc)
 				if err == nil {
 					continue
@@ -1899,6 +1900,14 @@ func (bc *Blockchain) AddBlock(block *block.Block) error {
 		}
 	}
 	return bc.storeBlock(block, mp)
+}
+
+// sameWitnesses checks witness lists for byte equality.
+func sameWitnesses(a, b []transaction.Witness) bool {
+	return slices.EqualFunc(a, b, func(x, y transaction.Witness) bool {
+		return bytes.Equal(x.InvocationScript, y.InvocationScript) &&
+			bytes.Equal(x.VerificationScript, y.VerificationScript)
+	})
 }
 
 // AddHeaders processes the given headers and add them to the
